@@ -606,7 +606,8 @@ def run_wrap(task):
     for w in widths:
         for ln in (False, True):
             o = dict(BASE)
-            o.update({"width": str(w), "side-by-side": True, "wrap-max-lines": wrap_max})
+            o.update({"width": str(w), "side-by-side": True, "wrap-max-lines": wrap_max,
+                      "syntax-theme": "Monokai Extended"})
             if ln:
                 o["line-numbers-left-format"] = ""
                 o["line-numbers-right-format"] = "|"
@@ -622,6 +623,16 @@ def run_wrap(task):
                     inputs.append(head + b"-" + t + b"\n+" + t + b"y\n")
                     inputs.append(head + b" " + t + b"\n+q\n")
                     inputs.append(head + b"-q\n+" + b"x" * (k // 2) + b" " + b"x" * (k - k // 2) + trail + b"\n")
+            # clusters and zero-width characters at row ends: emoji + variation selector, zero-width space, right-to-left
+            # mark, a combining mark after punctuation - in paired lines (the two section lists are cut differently) and
+            # in unchanged lines of a highlighted file (the syntax sections are cut at token borders)
+            for a, b in ((b"\xe2\xac\x86\xef\xb8\x8f", b"\xe2\xac\x87\xef\xb8\x8f"), (b"x\xe2\x80\x8b", b"y\xe2\x80\x8b"),
+                         (b"{\xcc\x81", b"}\xcc\x81"), (b"\xe2\x80\x8f\xd7\xa9", b"\xe2\x80\x8f\xd7\x9c")):
+                for k in range(0, w // 2 + 2):
+                    pad = b"w" * k
+                    inputs.append(head + b"-" + pad + a + b" tail of the line\n+" + pad + b + b" tail of the line\n")
+                    inputs.append(head + b" " + pad + b' "' + a + b'tail of the line",\n-q\n')
+                    inputs.append(head.replace(b"f.txt", b"f.json") + b' {\n   "' + pad + b'": "' + a + b' and more words here",\n-  "c": 1\n+  "c": 2\n')
             for i in range(0, len(inputs), 256):
                 if time.time() > deadline:
                     break
@@ -632,6 +643,8 @@ def run_wrap(task):
                     if isinstance(r, Exception) or r.panic:
                         msg = str(r) if isinstance(r, Exception) else r.panic
                         klass = "crash:%s:%s" % ("hang" if isinstance(r, Hang) else "panic", explore.crash_site(msg))
+                        if any(z in inp for z in (b"\xef\xb8\x8f", b"\xe2\x80\x8b", b"\xe2\x80\x8f", b"\xcc\x81")):
+                            klass += ":cluster-or-zero-width"     # (a class of its own: see known_findings.json)
                         if klass not in viols:
                             v = Violation(klass, msg, inp.split(b"\n")[:-1], None, None, msg)
                             v.args = args
